@@ -338,6 +338,8 @@ func (g *G) cond(c *gctx, depth int) *N {
 		classes := []*N{
 			{K: "nil"}, Int(0), Int(7), Int(-1),
 			{K: "flt", I: int64(math.Float64bits(0))}, {K: "flt", I: int64(math.Float64bits(1.5))},
+			// non-zero floats of small magnitude: neither rounding to an integer nor a tolerance makes them zero
+			{K: "flt", I: int64(math.Float64bits(0.4))}, {K: "flt", I: int64(math.Float64bits(1e-12))}, {K: "flt", I: int64(math.Float64bits(5e-324))}, {K: "flt", I: int64(math.Float64bits(1e-300))},
 			Str(""), Str("abc"),
 			{K: "list"}, {K: "list", Ns: []*N{Int(0)}},
 			{K: "map"}, {K: "map", Ns: []*N{Str("k"), Int(0)}},
@@ -353,6 +355,11 @@ func (g *G) thrown(c *gctx) *N {
 		// ordinary errors
 		g.feat("throw_of_a_sentinel_text")
 		return Str(rapid.SampledFrom([]string{"execution interrupted", "unexpected break statement", "unexpected continue statement", "unexpected return statement"}).Draw(g.t, "sentinel"))
+	}
+	if g.chance(10) {
+		// values that print as nothing, or are nothing: a throw raises whatever it is given
+		g.feat("throw_of_empty_or_nil")
+		return []*N{Str(""), {K: "nil"}, {K: "idx", Ns: []*N{{K: "map", Ns: []*N{Str("k"), Int(1)}}, Str("zz")}}}[g.n(0, 2, "emptythrown")]
 	}
 	switch g.n(0, 3, "thrown") {
 	case 0:
@@ -633,7 +640,17 @@ func (g *G) loopStmt(c *gctx) []*N {
 		init := &N{K: "let", Ps: []string{ctr}, Ns: []*N{Int(0)}}
 		cnd := Bin("<", Id(ctr), Int(bound))
 		none := &N{K: "none"}
-		switch g.n(0, 5, "cforhdr") {
+		switch g.n(0, 7, "cforhdr") {
+		case 6:
+			// neither a post expression nor a condition that reads a variable: constant-true condition, left by break only
+			g.feat("loop_cfor_constant_condition_without_post")
+			body = append([]*N{{K: "let", Ps: []string{ctr}, Ns: []*N{Bin("+", Id(ctr), Int(1))}}, {K: "if", Ns: []*N{Bin(">", Id(ctr), Int(bound))}, Ss: [][]*N{{{K: "break"}}}}}, body...)
+			out = []*N{{K: "cfor", Ns: []*N{init, {K: "true"}, none}, Ss: [][]*N{body}}}
+		case 7:
+			// no condition, no post expression, and the body opens with a declaration of a constant
+			g.feat("loop_cfor_without_condition_and_post")
+			body = append([]*N{{K: "var", Ps: []string{ctr + "c"}, Ns: []*N{Int(1)}}, {K: "let", Ps: []string{ctr}, Ns: []*N{Bin("+", Id(ctr), Int(1))}}, {K: "if", Ns: []*N{Bin(">", Id(ctr), Int(bound))}, Ss: [][]*N{{{K: "break"}}}}}, body...)
+			out = []*N{{K: "cfor", Ns: []*N{init, none, none}, Ss: [][]*N{body}}}
 		case 0:
 			// no condition: left by break only; continue must still run the post expression
 			g.feat("loop_cfor_without_condition")
@@ -723,6 +740,23 @@ func (g *G) flatStmt(c *gctx) []*N {
 
 func (g *G) switchStmt(c *gctx) *N {
 	s := &N{K: "switch", Ns: []*N{g.iexpr(c, 1)}}
+	// subjects that are not numbers: nil (written out, or the entry a map does not have) and strings;
+	// their cases are compared with the same equality, `case nil` matches a nil subject
+	subjClass := ""
+	if g.prof.Control && g.chance(18) {
+		switch g.n(0, 2, "subjclass") {
+		case 0:
+			subjClass = "nil"
+			s.Ns[0] = &N{K: "nil"}
+		case 1:
+			subjClass = "nil"
+			s.Ns[0] = &N{K: "idx", Ns: []*N{{K: "map", Ns: []*N{Str("k"), Int(1)}}, Str("zz")}}
+		default:
+			subjClass = "str"
+			s.Ns[0] = Str(rapid.SampledFrom([]string{"s1", "s2", ""}).Draw(g.t, "subjstr"))
+		}
+		g.feat("switch_subject_" + subjClass)
+	}
 	n := g.n(0, 3, "cases")
 	defAt := -1
 	if g.chance(60) {
@@ -744,7 +778,16 @@ func (g *G) switchStmt(c *gctx) *N {
 			if g.prof.Control && g.chance(20) {
 				ck = 3
 			}
+			if subjClass != "" && g.chance(70) {
+				ck = 4
+			}
 			switch ck {
+			case 4:
+				if subjClass == "nil" || g.chance(30) {
+					cn.Ns = append(cn.Ns, &N{K: "nil"})
+				} else {
+					cn.Ns = append(cn.Ns, Str(rapid.SampledFrom([]string{"s1", "s2", ""}).Draw(g.t, "casestr")))
+				}
 			case 3:
 				// a float case against the integer subject: equal only when whole-valued and the same number
 				g.feat("switch_float_case")
